@@ -4,6 +4,7 @@ import (
 	"encoding/json"
 	"fmt"
 	"os"
+	"sort"
 )
 
 // replayFile re-runs the case stored in a replay file written by Ctx.finish.
@@ -38,3 +39,5 @@ func runWorker(args []string) int {
 	}
 	return f(args[1:])
 }
+
+func sortSlice[T any](xs []T, less func(i, j int) bool) { sort.Slice(xs, less) }
